@@ -121,8 +121,9 @@ def run(spec, ctx):
         # =~ with every flag subset
         import itertools
 
-        for k in range(5):
-            for fl in itertools.combinations("aims", k):
+        spell = [fl for k in range(5) for fl in itertools.combinations("aims", k)] + [tuple(x) for x in ("mm", "ss", "ii", "aa", "isi", "smi", "mms", "ssi", "am", "ma", "iis")]
+        for k in range(1):
+            for fl in spell:
                 for pat in ("x", "X", "a.b", "[w-y]+", "(x|y)", "x?"):
                     asts.append(["q", "$", [["child", [["filter", ["cmp", "=~", ["sq", Q("@", name("a"))], ["regex", pat, "".join(fl)]]]]]]])
         # <> , undefined / missing, aliases of logical operators and literals
